@@ -192,7 +192,7 @@ def r2(ctx, R):
     if "_get_object_from_idtuple_reduce" not in " ".join(norm(x.value) for x in q.returns(rs)):
         R.bad(rs, rs.node, "id tuples are not resolved on load", stmt="return")
     gr = ctx.func("System._get_object_from_idtuple_reduce")
-    if not any("self.serializing.model.name" in norm(v) for v in assigned_value(gr, "model")):
+    if not any("(self.serializing.model.name,) + idtuple[1:]" == q.anorm(gr, v) for v in assigned_value(gr, "idtuple")):
         R.bad(gr, gr.node, "relative id tuple is not resolved against the model being read", stmt="model =")
 
 
@@ -299,7 +299,15 @@ def r3(ctx, R):
     R.inst("CellsEncoder emits _is_cached exactly when the flag is False and _allow_none when it is set")
     g = [n for n in ce.cfg.nodes if n.kind == "test"]
     tx = [norm(n.ast) for n in g]
-    if "self.target.is_cached == False" not in tx and "not self.target.is_cached" not in tx:
+    emits = [c for c in q.calls(ce, name="append") if c.args and isinstance(c.args[0], ast.Constant)
+             and c.args[0].value == "_is_cached = False"]
+    okf = False
+    for c in emits:
+        gs = q.guards_of(ce, c)
+        if {("self.target.is_cached == False", "T"), ("self.target.is_cached", "F"), ("self.target.is_cached is False", "T"),
+                ("self.target.is_cached != True", "T")} & set(gs.resolved()) and len(gs) == 1:
+            okf = True
+    if not okf:
         R.bad(ce, ce.node, "uncached flag is not written", stmt="_is_cached")
     if "self.target.allow_none is not None" not in tx:
         R.bad(ce, ce.node, "allow_none is not written when set", stmt="_allow_none")
@@ -473,8 +481,9 @@ def r6(ctx, R):
     ri = ctx.func(S6 + ":ModelReader._read_model_inner")
     phases = []
     for c in q.calls(ri, name="execute_selected_methods"):
-        if c.args and isinstance(c.args[0], ast.List):
-            phases.append(([e.value for e in c.args[0].elts if isinstance(e, ast.Constant)], c))
+        a0 = q.origin(ri, c.args[0]) if c.args else None
+        if isinstance(a0, (ast.List, ast.Tuple)):
+            phases.append(([e.value for e in a0.elts if isinstance(e, ast.Constant)], c))
     allph = {m for p, _ in phases for m in p}
     R.slot("created", {k: sorted(set(v)) for k, v in created.items()})
     R.slot("phases", [p for p, _ in phases])
